@@ -71,6 +71,10 @@ pub fn gen_source(rng: &mut Rng, i: usize) -> String {
     if rng.chance(1, 4) {
         s.push_str("#[doc = \"attribute style doc\"]\n");
     }
+    // attributes of other derives that merely share a name with logos' legacy helper attributes
+    if rng.chance(1, 4) {
+        s.push_str(rng.pick_str(&["#[error(\"lexing failed\")]\n", "#[extras(crate_name = \"x\")]\n", "#[end]\n", "#[error(transparent)]\n#[extras]\n"]));
+    }
     let vis = rng.pick_str(&["pub ", "", "pub(crate) "]);
     let repr_u8 = s.contains("#[repr(u8)]");
     s.push_str(&format!("{vis}enum Tok{i}{} {{\n", if with_lt && !repr_u8 { "<'a>" } else { "" }));
@@ -101,7 +105,7 @@ pub fn gen_source(rng: &mut Rng, i: usize) -> String {
     }
     if rng.chance(2, 3) {
         s.push_str("    #[regex(\"[0-9]+\", |lex| lex.slice().len())]\n");
-        let fattr = if rng.chance(1, 2) { "#[allow(unused)] " } else { "" };
+        let fattr = *rng.pick(&["#[allow(unused)] ", "", "#[end] ", "#[extras(skip)] "]);
         s.push_str(&format!("    Num({fattr}usize),\n"));
     }
     if with_lt && !repr_u8 {
